@@ -126,6 +126,8 @@ AllOK == Judged => IF IsCID(fam) THEN AllCIDAgrees(rs, chain, Current, Probes)
                    ELSE AllTUAgrees(rs, chain, Current)
 \* writing and reading back gives the same file (same code space, same entries, same parents)
 EmbedOK == phase = "extracted" => file2 = file
+\* the stream Embed wrote can be read back by the PostScript interpreter
+ReadableOK == (phase = "embedded" /\ ~IsCID(fam)) => ReadableTU(stream)
 \* compression never produces overlapping entries, so lookup order cannot matter
 CompressOK == (origin = "map" /\ phase = "built") => NonOverlapping(file)
 \* hand-made files: rangeIndex, codesInRange, the declarative rank, lookup and All agree
